@@ -20,7 +20,7 @@ OUT = os.environ.get("VERIF_OUT") or VERIF
 
 LEVEL = {"C01": "fault_enumeration"}
 TIERS = {
-    "quick": {"runs": 1600, "budget": 45},
+    "quick": {"runs": 1600, "budget": 40},
     "thorough": {"runs": 40000, "budget": 720},
 }
 # quick tier sized so that each check takes about 20-30 s on 16 cores
